@@ -1,5 +1,5 @@
 (* C16 property theorems.  Only statements closed by [exact]; each followed by Print Assumptions. *)
-From Miller Require Import Base.Record C16.Model C16.Format C16.CivilProofs C16.TextProofs C16.Proofs C16.FormatProofs C16.GmtProofs C16.DhmsProofs C16.ZoneProofs C16.LocalProofs C16.Verb C16.VerbProofs C16.Datediff C16.DatediffProofs gen.Gen_Zones.
+From Miller Require Import Base.Record C16.Model C16.Format C16.CivilProofs C16.TextProofs C16.Proofs C16.FormatProofs C16.GmtProofs C16.DhmsProofs C16.ZoneProofs C16.LocalProofs C16.OverlapProofs C16.Verb C16.VerbProofs C16.Datediff C16.DatediffProofs gen.Gen_Zones.
 Open Scope Z_scope.
 
 (* calendar inverses, ALL integers / all valid dates of all years (proleptic Gregorian) *)
@@ -167,6 +167,60 @@ Theorem C16_overlaps_and_gaps_text_gen_zones :
 Proof. exact gen_zones_transitions_text_ok. Qed.
 Print Assumptions C16_overlaps_and_gaps_text_gen_zones.
 
+(* ---- THE LOCAL ROUND TRIP AT ALL INSTANTS, OVERLAP HOURS INCLUDED (general lemma over ANY well-formed table and EVERY
+   reading; no per-table computation).  "localtime2sec(sec2localtime(t)) = t for all t" is FALSE inside an overlap for one of
+   the two instants that share a wall-clock reading; what holds for every t: time.Date's resolution of the reading of t is an
+   instant r with the SAME reading, so r = t + (offset_at t - offset_at r): r = t when the offsets agree (always outside
+   overlaps: C16_localtime2sec_sec2localtime), otherwise r is the other instant of the overlap, |r - t| = size of the overlap. *)
+Theorem C16_local_round_trip_all_instants :
+  forall z t, wf_ztable z = true -> ALPHA + ZD <= t -> t <= OMEGA - ZD ->
+  to_local z (of_local z (to_local z t)) = to_local z t.
+Proof. exact to_local_of_local_to_local. Qed.
+Print Assumptions C16_local_round_trip_all_instants.
+
+Theorem C16_local_round_trip_all_instants_offset :
+  forall z t, wf_ztable z = true -> ALPHA + ZD <= t -> t <= OMEGA - ZD ->
+  let r := of_local z (to_local z t) in r = t + (offset_at z t - offset_at z r).
+Proof. exact of_local_to_local_all. Qed.
+Print Assumptions C16_local_round_trip_all_instants_offset.
+
+(* through the text, k = 0..9 decimals: at EVERY instant localtime2sec(sec2localtime(t, k, zone), zone) succeeds and returns an
+   instant that sec2localtime prints as the same text *)
+Theorem C16_localtime2sec_sec2localtime_all_instants :
+  forall z t ns k, wf_ztable z = true -> ALPHA + ZD <= t -> t <= OMEGA - ZD -> LO <= to_local z t <= HI ->
+  0 <= ns < 1000000000 -> (k <= 9)%nat ->
+  exists r, localtime2sec z (fmt_time true (to_local z t) ns (Z.of_nat k)) = Some r /\
+            to_local z r = to_local z t /\ r = t + (offset_at z t - offset_at z r) /\
+            sec2localtime_int z r 0 = sec2localtime_int z t 0.
+Proof. exact localtime2sec_sec2localtime_all. Qed.
+Print Assumptions C16_localtime2sec_sec2localtime_all_instants.
+
+(* non-vacuity: one overlap hour; an instant of the first pass is sent to the second pass, which is a fixed point *)
+Example C16_local_round_trip_all_instants_nonvacuous :
+  wf_ztable overlap_demo = true /\
+  of_local overlap_demo (to_local overlap_demo 998200) = 1001800 /\
+  to_local overlap_demo 1001800 = to_local overlap_demo 998200 /\
+  of_local overlap_demo (to_local overlap_demo 1001800) = 1001800 /\
+  of_local overlap_demo (to_local overlap_demo 990000) = 990000.
+Proof. exact overlap_demo_facts. Qed.
+
+(* EVERY wall-clock reading l, also those no instant shows (gaps), any well-formed table: localtime2sec's zone resolution
+   answers l minus an offset of the table; the answer is a genuine preimage whenever ANY instant shows l; otherwise NO instant
+   shows l (gap) and the answer shows l shifted by the difference of two offsets of the table *)
+Theorem C16_local_resolution_every_reading :
+  forall z l, wf_ztable z = true ->
+  let r := of_local z l in
+  (exists u, r = l - offset_at z u /\ to_local z r = l + (offset_at z r - offset_at z u)) /\
+  (to_local z r = l \/ forall t, ALPHA + ZD <= t -> t <= OMEGA - ZD -> to_local z t <> l).
+Proof. exact of_local_dichotomy. Qed.
+Print Assumptions C16_local_resolution_every_reading.
+
+Example C16_local_resolution_every_reading_nonvacuous :
+  wf_ztable gap_demo = true /\
+  of_local gap_demo 1005400 = 1005400 - 3600 /\ to_local gap_demo (of_local gap_demo 1005400) = 1005400 + 3600 /\
+  to_local gap_demo 999999 = 1003599 /\ to_local gap_demo 1000000 = 1007200.
+Proof. exact gap_demo_facts. Qed.
+
 (* gmt2nsec returns int64 nanoseconds: exact whenever n * 10^9 fits in int64 (1677-09-21 .. 2262-04-11) *)
 Theorem C16_gmt2nsec_sec2gmt :
   forall n, LO <= n <= HI -> MIN64 <= n * 1000000000 <= MAX64 -> gmt2nsec (sec2gmt_int n 0) = POk (n * 1000000000).
@@ -179,20 +233,21 @@ Theorem C16_gmt2sec_float_instances_partial :
 Proof. exact gmt_float_instances. Qed.
 Print Assumptions C16_gmt2sec_float_instances_partial.
 
-(* d/h/m/s inverses: for every int64 except -2^63 ... *)
-Theorem C16_dhms2sec_sec2dhms : forall n, MIN64 < n <= MAX64 -> dhms2sec (sec2dhms n) = Some n.
+(* d/h/m/s inverses: for EVERY int64 (incl. -2^63 since the repair of splitIntToDHMS) *)
+Theorem C16_dhms2sec_sec2dhms : forall n, MIN64 <= n <= MAX64 -> dhms2sec (sec2dhms n) = Some n.
 Proof. exact dhms_roundtrip. Qed.
 Print Assumptions C16_dhms2sec_sec2dhms.
 
-Theorem C16_hms2sec_sec2hms : forall n, MIN64 < n <= MAX64 -> hms2sec (sec2hms n) = Some n.
+Theorem C16_hms2sec_sec2hms : forall n, MIN64 <= n <= MAX64 -> hms2sec (sec2hms n) = Some n.
 Proof. exact hms_roundtrip. Qed.
 Print Assumptions C16_hms2sec_sec2hms.
 
-(* ... and refuted at exactly -2^63 (known finding dhms-roundtrip-minint64) *)
-Theorem C16_dhms_roundtrip_refuted_at_minint64 :
-  exists n, in64 n = true /\ dhms2sec (sec2dhms n) <> Some n /\ hms2sec (sec2hms n) <> Some n.
-Proof. exact dhms_refuted. Qed.
-Print Assumptions C16_dhms_roundtrip_refuted_at_minint64.
+(* the former witness -2^63 (finding dhms-roundtrip-minint64, repaired: the magnitude is split as uint64) as an instance,
+   with the texts it now prints *)
+Theorem C16_dhms_roundtrip_at_minint64 :
+  dhms_ok MIN64 = true /\ sec2dhms MIN64 = B "-106751991167300d15h30m08s" /\ sec2hms MIN64 = B "-2562047788015215:30:08".
+Proof. exact dhms_minint64. Qed.
+Print Assumptions C16_dhms_roundtrip_at_minint64.
 
 (* local time: for ANY well-formed transition table (offsets within 16 h, periods at least 64 h), Go's time.Date zone
    resolution inverts the wall-clock display at every instant whose wall-clock reading is unambiguous (outside overlaps) *)
